@@ -737,6 +737,16 @@ func (ex *Exec) evalCall(env *Env, x *ECall) Val {
 			if _, isVar := env.vars[id.Name]; !isVar {
 				for _, imp := range env.pkg.Imports() {
 					if imp.Name() == id.Name {
+						// pkg.Type(x): conversion
+						if o := imp.Scope().Lookup(name); o != nil {
+							if tn, isT := o.(*types.TypeName); isT && len(args) == 1 {
+								v := ex.eval(env, args[0])
+								if v.Const != nil {
+									return coerce(v, tn.Type())
+								}
+								return ex.convert(env.st.clone(), v, tn.Type())
+							}
+						}
 						if fn := ex.ld.findFunc(imp.Path(), name); fn != nil {
 							return ex.pureCall(env, fn, ex.evalArgs(env, args, fn, 0))
 						}
@@ -844,6 +854,38 @@ func (ex *Exec) evalCall(env *Env, x *ECall) Val {
 			return scalar(bt, And(in, Not(Eq(m.Term(), IntC(0)))))
 		}
 		return v
+	case "res0", "res1", "res2", "res3":
+		// component of a call that returns several results
+		v := ex.eval(env, args[0])
+		tup, ok := v.T.(*types.Tuple)
+		if !ok {
+			sfail("%s: not a multi-result call", name)
+		}
+		_ = tup
+		return structField(v, int(name[3]-'0'))
+	case "mkstruct":
+		// mkstruct("T", f0, f1, ...): a struct value with the given field values in declaration order
+		t := ex.ld.resolveType(env.pkg, strArg(args[0]))
+		stt, ok := t.Underlying().(*types.Struct)
+		if !ok || stt.NumFields() != len(args)-1 {
+			sfail("mkstruct: %s needs %d field values", strArg(args[0]), stt.NumFields())
+		}
+		r := Val{T: t}
+		for i := 0; i < stt.NumFields(); i++ {
+			fv := ex.eval(env, args[i+1])
+			if fv.Const != nil {
+				fv = coerce(fv, stt.Field(i).Type())
+			}
+			r.L = append(r.L, fv.L...)
+		}
+		return r
+	case "zeroTime":
+		for _, p := range ex.ld.allPkgs {
+			if p.Path() == "time" {
+				return scalar(p.Scope().Lookup("Time").Type(), timeZero)
+			}
+		}
+		sfail("package time not loaded")
 	case "visitedcount":
 		// visitedcount(m): number of keys produced so far by the current iteration over map m
 		m := ex.eval(env, args[0])
@@ -1036,7 +1078,8 @@ func (ex *Exec) pureCall(env *Env, fn *ssa.Function, args []Val) Val {
 	rs := ex.callStatic(top, st, fn, args, nil, token.NoPos)
 	ex.obs = ex.obs[:nObs]
 	if len(rs) != 1 {
-		sfail("pure call of %s: %d results", fn.Name(), len(rs))
+		// several results: a tuple (use res0(...), res1(...) to select)
+		return packResults(fn.Signature.Results(), rs)
 	}
 	return rs[0]
 }
@@ -1113,7 +1156,7 @@ func (ex *Exec) callSpec(env *Env, sf *SpecFunc, args []Expr) Val {
 			leaves = append(leaves, env.st.get(k, sf.KeySorts[i]))
 		}
 		app := App("rec_"+sf.Name, rl.Leaves[0].S, leaves...)
-		if closed && env.recDepth < 1 && !ex.recDone[app] {
+		if env.recDepth < 1 && !ex.recDone[app] {
 			if ex.recDone == nil {
 				ex.recDone = map[*Term]bool{}
 			}
@@ -1124,7 +1167,9 @@ func (ex *Exec) callSpec(env *Env, sf *SpecFunc, args []Expr) Val {
 			if b.Const != nil {
 				b = coerce(b, rt)
 			}
-			ex.assumptions = append(ex.assumptions, Eq(app, b.Term()))
+			// an application under a binder gets the equation quantified over the bound variables it mentions
+			_ = closed
+			ex.assumptions = append(ex.assumptions, closeOver(Eq(app, b.Term())))
 		}
 		return scalar(rt, app)
 	}
